@@ -158,8 +158,8 @@ where
     /// Set memory permissions for the page at the given address
     pub fn set_permissions(&mut self, address: u64, len: u64, permissions: MemoryPermissions) {
         let mut page_address = address & PAGE_MASK;
-        let total_length = len + (address - page_address);
-        while page_address < total_length {
+        let end_address = address + len;
+        while page_address < end_address {
             RC::make_mut(
                 self.pages
                     .entry(page_address)
